@@ -518,6 +518,23 @@ func c03Run(prop, tier string, c Case, w *Worker) (res Result) {
 		items = append(items, item{"/medium", content, "fs"})
 		res.count("medium_files", 1)
 	}
+	if !cfg.TapeMode && cfg.Comp != "" {
+		// every compressing configuration: one file of more than 3 MiB that compresses by far more than 1000:1 (zeros, or one
+		// short phrase repeated): what is stored is a few hundred bytes, what has to come back is every byte
+		content := make([]byte, 3<<20+1)
+		if c.Seed%2 == 0 {
+			phrase := []byte("all work and no play makes jack a dull boy; ")
+			for i := range content {
+				content[i] = phrase[i%len(phrase)]
+			}
+		}
+		if err := afero.WriteFile(rig.FS, "/squeezed", content, 0o644); err != nil {
+			fail("fs-write", "WriteFile(/squeezed, %d bytes): %v", len(content), err)
+			return
+		}
+		items = append(items, item{"/squeezed", content, "fs"})
+		res.count("highly_compressible_files_over_3MiB", 1)
+	}
 	if p.Big > 0 {
 		content := genContent(p.Big, dists[int(c.Seed%3)], subSeed(c.Seed, "big"))
 		h, err := rig.FS.Create("/big")
@@ -804,7 +821,7 @@ func init() {
 	register(&Engine{Name: "matrix-c03", Props: []string{"C03"}, Cases: c03Cases, Run: c03Run})
 	propMeta["C03"] = PropMeta{
 		Level: "exploration",
-		Rule:  "one case per pipeline configuration (compression x level x encryption x signature x record size x write cache x drive-kind flag); each writes 9 size classes (0,1,511,512,513,record-1,record,record+1,3 records+7; zeros/random/text) through the filesystem and 9 through Operations.Archive (some replaced through Update), plus a never-written file, and reads every file back through File.Read, Operations.Restore and recovery.Fetch on the live and on a rebuilt instance; non-trivial = at least 5 non-empty files round-tripped; distinct = distinct configuration; every configuration also carries one incompressible 330001-byte file (several codec blocks) and every compression x encryption pair is in the quick tier; a third of the batched members have an Info.Size() that is off by +9 / -7 bytes (source changed after the scan: the recorded size has to be the content's); 'far' cases: two sparse members of 2 GiB each are appended the way a tar writer would, the index is rebuilt, and files written behind byte 2^31 and 2^32 of the tape are read back through all three paths; every file is also read with ONE positioned read covering most of it (full count, nil error)",
+		Rule:  "one case per pipeline configuration (compression x level x encryption x signature x record size x write cache x drive-kind flag); each writes 9 size classes (0,1,511,512,513,record-1,record,record+1,3 records+7; zeros/random/text) through the filesystem and 9 through Operations.Archive (some replaced through Update), plus a never-written file, and reads every file back through File.Read, Operations.Restore and recovery.Fetch on the live and on a rebuilt instance; non-trivial = at least 5 non-empty files round-tripped; distinct = distinct configuration; every configuration also carries one incompressible 330001-byte file (several codec blocks) and every compression x encryption pair is in the quick tier; a third of the batched members have an Info.Size() that is off by +9 / -7 bytes (source changed after the scan: the recorded size has to be the content's); 'far' cases: two sparse members of 2 GiB each are appended the way a tar writer would, the index is rebuilt, and files written behind byte 2^31 and 2^32 of the tape are read back through all three paths; every file is also read with ONE positioned read covering most of it (full count, nil error); every compressing configuration also carries one file of 3 MiB + 1 that compresses by more than 1000:1 (zeros, or a repeated phrase)",
 		Assumptions: []string{
 			"tape-mode codec parameters are exercised by handing the writer DriveIsRegular=false over a regular file; a real tape device is not available",
 			"contents are bounded by 3 records + 7 bytes (<= ~1.5 MiB at record size 1024)",
